@@ -1253,17 +1253,21 @@ class PrivKey(PubKey):
 
     def encrypt_keyblob(self, passphrase, enc_alg, hash_alg):
         # PGPy will only ever use iterated and salted S2k mode
-        self.s2k.usage = 254
-        self.s2k.encalg = enc_alg
-        self.s2k.specifier = String2KeyType.Iterated
-        self.s2k.iv = enc_alg.gen_iv()
-        self.s2k.halg = hash_alg
-        self.s2k.salt = bytearray(os.urandom(8))
-        self.s2k.count = hash_alg.tuned_count
+        # the new specifier and the new ciphertext are prepared on the side and put in place together at the end:
+        # a call that is refused (cipher not usable for encryption, unknown hash, passphrase of a wrong type) or
+        # interrupted must leave the key as it was, still readable with the passphrase it had
+        s2k = String2Key()
+        s2k.usage = 254
+        s2k.encalg = enc_alg
+        s2k.specifier = String2KeyType.Iterated
+        s2k.iv = s2k.encalg.gen_iv()
+        s2k.halg = hash_alg
+        s2k.salt = bytearray(os.urandom(8))
+        s2k.count = s2k.halg.tuned_count
 
         # now that String-to-Key is ready to go, derive sessionkey from passphrase
         # and then unreference passphrase
-        sessionkey = self.s2k.derive_key(passphrase)
+        sessionkey = s2k.derive_key(passphrase)
         del passphrase
 
         pt = bytearray()
@@ -1274,10 +1278,12 @@ class PrivKey(PubKey):
         pt += hashlib.new('sha1', pt).digest()
 
         # encrypt
-        self.encbytes = bytearray(_encrypt(bytes(pt), bytes(sessionkey), enc_alg, bytes(self.s2k.iv)))
+        encbytes = bytearray(_encrypt(bytes(pt), bytes(sessionkey), s2k.encalg, bytes(s2k.iv)))
 
         # delete pt and clear self
         del pt
+        self.s2k = s2k
+        self.encbytes = encbytes
         self.clear()
 
     @abc.abstractmethod
